@@ -55,7 +55,8 @@ pub fn main() -> ExitCode {
         }
     };
 
-    if !args.no_validate && !validate(&module) {
+    // `validate` returns true when validation failed.
+    if !args.no_validate && validate(&module) {
         return ExitCode::FAILURE;
     }
 
